@@ -82,7 +82,7 @@ func (s script) finalErr() error {
 	case "eof-error":
 		return io.EOF // an error like any other to a gRPC server (Unknown "EOF"); not "the stream ended well"
 	case "status-bad-utf8":
-		return status.Error(codes.FailedPrecondition, "caf\xe9 closed") // a status text that is not valid UTF-8
+		return status.Error(codes.FailedPrecondition, "caf\xe9 closed \xff\xfe, 12\xe2\x82") // a status text that is not valid UTF-8 (single bad bytes, a run of them, a cut-off rune)
 	case "wrapped-eof":
 		return fmt.Errorf("inner stream: %w", io.EOF) // the same with context added on the way up
 	case "wrapped-deadline":
